@@ -1,11 +1,11 @@
 #!/bin/sh
 # tools/runall.sh [tier]: run every check once, print id, exit code, seconds, last line
 T=${1:-quick}
-cd /verif
+cd "$(dirname "$0")/.."
 for id in $(python3 -c "import json;print(' '.join(c['property_id'] for c in json.load(open('MANIFEST.json'))['checks']))"); do
   s=$(date +%s)
-  timeout 7200 ./vf check $id --tier $T > /tmp/runall_$id.out 2>&1
+  timeout 7200 ./vf check $id --tier $T > ${RUNALL_OUT:-/tmp}/runall_${T}_$id.out 2>&1
   rc=$?
   e=$(date +%s)
-  echo "$id rc=$rc $((e-s))s $(grep -c '^KNOWN-FINDING' /tmp/runall_$id.out)kf $(tail -1 /tmp/runall_$id.out | cut -c1-100)"
+  echo "$id rc=$rc $((e-s))s $(grep -c '^KNOWN-FINDING' ${RUNALL_OUT:-/tmp}/runall_${T}_$id.out)kf $(tail -1 ${RUNALL_OUT:-/tmp}/runall_${T}_$id.out | cut -c1-100)"
 done
